@@ -24,9 +24,12 @@ RULE = ('BAM files produced by the spec-level encoder (Python twin of Coq Model.
         'kinds, l_seq 0..19 odd and even over all 16 codes, qualities 0..93, optional tag bytes, mapped and unmapped; '
         'plain-gzip and BGZF containers with block boundaries inside records; whole read, BamIntervalBuffer, '
         'alignment_to_interval, chunked reads for chunk sizes >= the largest record (incl. exact record multiples, '
-        'stream size -1/0/+1/+2), whole / filtered / reordered / chunk-stream writes re-read; multi-step: the same entries re-read '
+        'stream size -1/0/+1/+2), whole / filtered / reordered / chunk-stream writes re-read, incl. index lists that start with the earliest and end '
+        'with the latest record of a run and have its total size but are not in file order (inner permutations, equal-'
+        'length replacement, on sub-spans, after chained selections, on a chunk); multi-step: the same entries re-read '
         'after alignment_to_interval, columns read before a write and all columns of the written object after it in '
-        'random orders, interval call before the write.  non-trivial = at least two '
+        'random orders, interval call before the write; two-file sessions: the file read while a second BAM '
+        'with a different reference dictionary is open, in every interleaving (whole, chunked in turn, intervals).  non-trivial = at least two '
         'records that differ in name length, CIGAR count or l_seq parity')
 EXHAUSTIVE = {'quick': False, 'thorough': False}
 TIE = 'translator+correspondence'   # translate/gen_c16.py -> Gen/C16.v, Bridge/C16.v, theorem C16_source_tie; plus the
@@ -182,6 +185,47 @@ def _ks(rng, case, how):
     return ks
 
 
+def _span_tricks(rng, sz, lo, hi):
+    """index lists over records lo..hi (sizes sz) whose first element is lo, whose last is hi and whose total byte size
+    equals the size of the run lo..hi, but which are not the run in file order"""
+    out = []
+    inner = list(range(lo + 1, hi))
+    if len(inner) >= 2:
+        p = inner[:]
+        for _ in range(10):
+            rng.shuffle(p)
+            if p != inner:
+                break
+        if p != inner:
+            out.append([lo] + p + [hi])
+    # one inner record replaced by another record of the same length (a repeat or a record from anywhere)
+    cands = [(i, j) for i in inner for j in range(len(sz)) if j != i and sz[j] == sz[i]]
+    if cands:
+        i, j = rng.choice(cands)
+        out.append([lo] + [j if x == i else x for x in inner] + [hi])
+    rng.shuffle(out)
+    return out
+
+
+def _chunk_groups(sz, k):
+    """which records each chunk of read_chunks(k) holds (k >= every record): the prepend-mode reader on record sizes"""
+    bounds, acc = [], 0
+    for x in sz:
+        acc += x
+        bounds.append(acc)
+    groups, done, pos, total = [], 0, 0, acc
+    while pos < total:
+        pos = min(total, pos + k)
+        g = []
+        while done < len(sz) and bounds[done] <= pos:
+            g.append(done)
+            done += 1
+        if not g:
+            break
+        groups.append(g)
+    return groups
+
+
 def _writes(rng, case, n_extra=2):
     n = len(case['recs'])
     if n == 0:
@@ -197,6 +241,35 @@ def _writes(rng, case, n_extra=2):
     if n_extra > 2:
         ws.append(dict(mode=1, idx=[i for i in perm if rng.random() < 0.6] + [perm[0]] * (n > 1), how='list'))   # with a repeat
         ws.append(dict(mode=2, k=rng.choice(_ks(rng, case, 6))))
+    # selections that start with the earliest and end with the latest record of a run and have the run's total size,
+    # but are NOT the run in file order: inner permutations, and a record replaced by another of equal length
+    sz = _sizes(case)
+    tricks = _span_tricks(rng, sz, 0, n - 1)
+    for idx in tricks[:2]:
+        ws.append(dict(mode=1, idx=idx, how='list'))
+    if n_extra > 2 or n >= 5:
+        lo = rng.randint(0, max(0, n - 4))
+        hi = rng.randint(min(n - 1, lo + 3), n - 1)
+        for idx in _span_tricks(rng, sz, lo, hi)[:1]:
+            ws.append(dict(mode=1, idx=idx, how='list'))
+        # the same after chained selections: t[a][b] with b an inner permutation of a's records
+        a = sorted(rng.sample(range(n), rng.randint(min(n, 4), n))) if n >= 4 else list(range(n))
+        for loc in _span_tricks(rng, [sz[i] for i in a], 0, len(a) - 1)[:1]:
+            ws.append(dict(mode=1, idx=[a[j] for j in loc], how='list', chain=[a, loc]))
+        # and on a chunk of a chunked read
+        ks = _ks(rng, case, 6)
+        for k in rng.sample(ks, len(ks)):
+            groups = _chunk_groups(sz, k)
+            cand = [(j, g) for j, g in enumerate(groups) if len(g) >= 3]
+            done = False
+            for j, g in cand:
+                loc = _span_tricks(rng, [sz[i] for i in g], 0, len(g) - 1)
+                if loc:
+                    ws.append(dict(mode=1, idx=[g[x] for x in loc[0]], how='list', chunk=[k, j], local=loc[0]))
+                    done = True
+                    break
+            if done:
+                break
     # multi-step use of the written object: columns read before the write, the interval call before the write, and
     # all columns read after it in another order
     for j, w in enumerate(ws):
@@ -228,6 +301,16 @@ def _mk(rng, refs, recs, container=None, ks=6, n_writes=2, text=None):
     case['ks'] = _ks(rng, case, ks)
     case['writes'] = _writes(rng, case, n_writes)
     case['order'] = rng.sample(range(9), 9)
+    # a second BAM file with a DIFFERENT reference dictionary (same number of references, or another number) that is
+    # open in the same process while this file is read (two-file sessions)
+    pool = [nm for nm in ['chr1', 'chr2', 'chrX_random', 'c', '10', 'chrUn_KI270', 'MT', 'HLA-A*01:01', 'a' * 40, 'zz', 'chr9']
+            if nm not in [r[0] for r in refs]]
+    n2 = len(refs) if rng.random() < 0.6 else rng.choice([x for x in (0, 1, 2, 3, 4) if x != len(refs)])
+    refs2 = [[nm, rng.choice([5, 1000, 2 ** 31 - 1])] for nm in rng.sample(pool, n2)]
+    other = dict(text=b'@HD\tVN:1.6\n'.hex(), refs=refs2,
+                 recs=[_rec(rng, n2, name_len=rng.randint(1, 6), n_cigar=rng.randint(0, 3), l_seq=rng.randint(0, 7))
+                       for _ in range(rng.randint(1, 4))], container=dict(kind='gzip'))
+    case['other'] = other
     return case
 
 
@@ -263,12 +346,27 @@ def generate(tier, seed):
     cases.append(_mk(rng, _refs(rng, 2), [], container=dict(kind='bgzf', blocks=[5, 9])))
     cases.append(_mk(rng, _refs(rng, 1), [_rec(rng, 1, unmapped=False)]))
     cases.append(_mk(rng, _refs(rng, 3), [_rec(rng, 3, unmapped=False, end10=True)]))
+    # 3b. unsorted buffers whose first and last record share a reference while the records between them do not
+    for t in range(4):
+        refs = _refs(rng, 3)
+        mid = [_rec(rng, 3, unmapped=False) for _ in range(rng.randint(1, 4))]
+        first, last = _rec(rng, 3, unmapped=False), _rec(rng, 3, unmapped=False)
+        first['ref'] = last['ref'] = t % 3
+        for j, r in enumerate(mid):
+            r['ref'] = (t + 1 + j) % 3
+        if t == 3:
+            mid[0]['ref'], mid[0]['pos'], mid[0]['flag'] = -1, -1, mid[0]['flag'] | 4
+        cases.append(_mk(rng, refs, [first] + mid + [last], ks=4, n_writes=2))
     # 4. random files
     for t in range(150 if not thorough else 1500):
         nrefs = rng.choice([0, 1, 1, 1, 2, 2, 2, 3, 3, 3, 3, 3])
         refs = _refs(rng, nrefs)
         nrec = rng.choice([1, 2, 3, 4, 5, 6, 8])
         recs = [_rec(rng, nrefs, end10=(rng.random() < 0.15)) for _ in range(nrec)]
+        if nrec >= 3 and rng.random() < 0.3:       # two records of equal length (different content) inside the file
+            j = rng.randrange(1, nrec - 1)
+            recs[j + 1 if j + 1 < nrec - 1 else j - 1] = dict(recs[j], pos=rng.randrange(1000) if recs[j]['ref'] >= 0 else -1,
+                                                                mapq=rng.choice([3, 17, 42]), seq=[(c + 1) % 16 for c in recs[j]['seq']])
         cases.append(_mk(rng, refs, recs, ks=6, n_writes=5 if t % 3 == 0 else 2))
     return cases
 
@@ -343,6 +441,87 @@ def _err(e):
     return 'error:%s:%s' % (type(e).__name__, str(e)[:80])
 
 
+def _sessions(case, p, d):
+    """this file (A, at path p) read while another BAM file B with a different reference dictionary is open in the same
+    process, in every interleaving; returns A's record lists and A's interval lists"""
+    import itertools
+    import bionumpy as bnp
+    from bionumpy.io.bam import BamIntervalBuffer
+    other = case.get('other')
+    if not other:
+        return [], []
+    pb = os.path.join(d, 'other.bam')
+    with open(pb, 'wb') as f:
+        f.write(container_bytes(other, stream_bytes(other)))
+    sess, sess_iv = [], []
+
+    def rec(fn):
+        try:
+            sess.append(fn())
+        except Exception as ex:
+            sess.append(_err(ex))
+
+    def iv(fn):
+        try:
+            sess_iv.append(fn())
+        except Exception as ex:
+            sess_iv.append(_err(ex))
+    n = len(case['recs'])
+
+    def s_open_a_b_read_a_b():
+        fa = bnp.open(p); fb = bnp.open(pb); ra = fa.read(); rb = fb.read()
+        _recs(rb)
+        out = _recs(ra)
+        if n:
+            iv(lambda: _ivs(bnp.alignments.alignment_to_interval(ra)))
+        return out
+
+    def s_open_a_b_read_b_a():
+        fa = bnp.open(p); fb = bnp.open(pb); rb = fb.read(); _recs(rb); ra = fa.read()
+        return _recs(ra)
+
+    def s_open_b_a_read_b_a():
+        fb = bnp.open(pb); fa = bnp.open(p); rb = fb.read(); ra = fa.read()
+        out = _recs(ra); _recs(rb)
+        return out
+
+    def s_read_a_then_open_b():
+        ra = bnp.open(p).read(); fb = bnp.open(pb); rb = fb.read(); _recs(rb)     # columns of A read after B was read
+        return _recs(ra, case.get('order'))
+    ka = (case['ks'] or [5000000])[0]
+    kb = max([len(enc_rec(r)) for r in other['recs']] or [1])
+
+    def chunks_in_turn(a_first):
+        def go():
+            if a_first:
+                ia = iter(bnp.open(p).read_chunks(ka)); ib = iter(bnp.open(pb).read_chunks(kb))
+            else:
+                ib = iter(bnp.open(pb).read_chunks(kb)); ia = iter(bnp.open(p).read_chunks(ka))
+            out = []
+            for ca, cb in itertools.zip_longest(ia, ib) if a_first else ((a, b) for b, a in itertools.zip_longest(ib, ia)):
+                if cb is not None:
+                    _recs(cb)
+                if ca is not None:
+                    out += _recs(ca)
+            return out
+        return go
+    for fn in (s_open_a_b_read_a_b, s_open_a_b_read_b_a, s_open_b_a_read_b_a, s_read_a_then_open_b,
+               chunks_in_turn(True), chunks_in_turn(False)):
+        rec(fn)
+
+    def iv_a_b():
+        fa = bnp.open(p, buffer_type=BamIntervalBuffer); fb = bnp.open(pb, buffer_type=BamIntervalBuffer)
+        ia = fa.read(); ib = fb.read(); _ivs(ib)
+        return _ivs(ia)
+
+    def iv_a_plain_b():
+        fa = bnp.open(p, buffer_type=BamIntervalBuffer); fb = bnp.open(pb); rb = fb.read(); _recs(rb)
+        return _ivs(fa.read())
+    iv(iv_a_b)
+    iv(iv_a_plain_b)
+    return sess, sess_iv
+
+
 def observe(case):
     import numpy as np
     import bionumpy as bnp
@@ -405,6 +584,12 @@ def observe(case):
                         m = np.zeros(len(src), dtype=bool)
                         m[w['idx']] = True
                         obj = src[m]
+                    elif 'chain' in w:
+                        obj = src
+                        for step in w['chain']:
+                            obj = obj[np.array(step, dtype=int)]
+                    elif 'chunk' in w:
+                        obj = list(bnp.open(p).read_chunks(w['chunk'][0]))[w['chunk'][1]][np.array(w['local'], dtype=int)]
                     else:
                         obj = src[np.array(w['idx'], dtype=int)]
                 else:
@@ -429,6 +614,7 @@ def observe(case):
             except Exception as ex:
                 ws.append(dict(error=_err(ex)))
         out['writes'] = ws
+        out['sess'], out['sess_iv'] = _sessions(case, p, d)
         return out
     finally:
         shutil.rmtree(d, ignore_errors=True)
@@ -523,10 +709,12 @@ def to_coq(case, o):
                                             hx(bytes.fromhex(wo['stream'])), pp))
     refs = clist(['(%s, %s)' % (hx(nm.encode()), cz(l)) for nm, l in case['refs']], '(list Z * Z)')
     return ('(let w := %s in {| k_text := %s; k_refs := %s; k_recs := %s; k_stream := %s; k_whole := w; k_ivs := %s; '
-            'k_ivs2 := %s; k_after_iv := %s; k_chunked := %s; k_writes := %s |})' % (
+            'k_ivs2 := %s; k_after_iv := %s; k_sess := %s; k_sess_iv := %s; k_chunked := %s; k_writes := %s |})' % (
                 _orecs(whole), hx(bytes.fromhex(case['text'])), refs, clist([_brec(r) for r in case['recs']], 'brec'),
                 hx(stream_bytes(case)), _oivs(o['ivs'], n), ('(Some %s)' % _oivs(o['ivs2'], n)) if isinstance(o['ivs2'], list) else '(@None (list oiv))',
                 _after_iv(o, whole),
+                clist([('w' if x == whole else _orecs(x if isinstance(x, list) else [BAD_OREC])) for x in o.get('sess', [])], 'list orec'),
+                clist([_oivs(x, n) for x in o.get('sess_iv', [])], 'list oiv'),
                 clist(chunked, '(Z * list Z * list orec)'), clist(writes, 'wobs')))
 
 
